@@ -137,20 +137,38 @@ func (w *Writer) Flush() {
 // ---------- Meta (distribution, samples, readable cases) ----------
 
 type Meta struct {
-	Harness      string            `json:"harness"`
-	Seed         int64             `json:"seed"`
-	Tier         string            `json:"tier"`
-	Total        int               `json:"total"`
-	Distinct     int               `json:"distinct"`
-	Nontrivial   int               `json:"distinct_nontrivial"`
-	Rule         string            `json:"rule"`
+	Harness      string                    `json:"harness"`
+	Seed         int64                     `json:"seed"`
+	Tier         string                    `json:"tier"`
+	Total        int                       `json:"total"`
+	Distinct     int                       `json:"distinct"`
+	Nontrivial   int                       `json:"distinct_nontrivial"`
+	Rule         string                    `json:"rule"`
 	Distribution map[string]map[string]int `json:"distribution"`
-	Samples      []any             `json:"samples"`
-	Files        []string          `json:"files"`
-	Exhaustive   bool              `json:"exhaustive"`
+	Samples      []any                     `json:"samples"`
+	Files        []string                  `json:"files"`
+	Exhaustive   bool                      `json:"exhaustive"`
 	// Readable[i] describes case i of the whole run (shard-major order) for replay files.
 	Readable []any `json:"readable"`
-	seen     map[string]bool
+	// Direct: observations decided by the harness itself, next to the evaluated case files (see lib/vlib.py)
+	Direct *DirectBlock `json:"direct,omitempty"`
+	seen   map[string]bool
+}
+
+type DirectBlock struct {
+	Total      int   `json:"total"`
+	Failures   []any `json:"failures"`
+	Mismatches []any `json:"mismatches"`
+}
+
+// DirectFail records a property failure the harness observed itself (not by evaluating a model).
+func (m *Meta) DirectFail(readable any) {
+	if m.Direct == nil {
+		m.Direct = &DirectBlock{Failures: []any{}, Mismatches: []any{}}
+	}
+	if len(m.Direct.Failures) < 20 {
+		m.Direct.Failures = append(m.Direct.Failures, readable)
+	}
 }
 
 func NewMeta(harness string, seed int64, tier string) *Meta {
